@@ -1,0 +1,33 @@
+//go:build verif
+
+package strategy
+
+import (
+	"time"
+
+	"github.com/go-logr/logr"
+	corev1 "k8s.io/api/core/v1"
+	"sigs.k8s.io/controller-runtime/pkg/client"
+
+	datadoghqv1alpha1 "github.com/DataDog/extendeddaemonset/api/v1alpha1"
+)
+
+// VerifManageCanaryStatus exposes manageCanaryStatus with an explicit evaluation instant.
+func VerifManageCanaryStatus(annotations map[string]string, params *Parameters, now time.Time) *Result {
+	return manageCanaryStatus(annotations, params, now)
+}
+
+// VerifCalculateMaxCreation exposes calculateMaxCreation.
+func VerifCalculateMaxCreation(p *datadoghqv1alpha1.ExtendedDaemonSetSpecStrategyRollingUpdate, nbNodes int, start, now time.Time) (int, error) {
+	return calculateMaxCreation(p, nbNodes, start, now)
+}
+
+// VerifDeletePodSlice exposes deletePodSlice.
+func VerifDeletePodSlice(c client.Client, logger logr.Logger, pods []*corev1.Pod) []error {
+	return deletePodSlice(c, logger, pods)
+}
+
+// VerifCompareCurrentPodWithNewPod exposes compareCurrentPodWithNewPod.
+func VerifCompareCurrentPodWithNewPod(params *Parameters, pod *corev1.Pod, node *NodeItem) bool {
+	return compareCurrentPodWithNewPod(params, pod, node)
+}
